@@ -43,4 +43,51 @@ example : C03P.is_tetrahedral Mouette.Props.C03.twoTets = true ∧ C03P.n_F2C Mo
     ∧ C03P.cell_to_vertex Mouette.Props.C03.twoTets 1 = [1, 2, 3, 4] ∧ C03P.id_cells Mouette.Props.C03.twoTets = [0, 1] := by
   decide +kernel
 
+/-! ## round 8: `common_face`, `in_cell_index`, `in_cell_face_index`, `is_edge_on_border` -/
+
+theorem common_face_bridge (m : Mesh) (c1 c2 : Nat) : C03P.common_face m c1 c2 = m.commonFace c1 c2 := by
+  unfold C03P.common_face Mesh.commonFace setInter
+  simp only []
+  by_cases h : ((m.cell c1).eraseDups.filter fun v => (m.cell c2).contains v).length = 3
+  · simp [h]
+  · simp [h]
+
+/-- `for i, v in enumerate(l): if p(v): return i` / `return None` is `findIdx?` -/
+theorem find_range_eq_findIdx? {α : Type} (l : List α) (d : α) (p : α → Bool) :
+    (List.range l.length).find? (fun i => p (l.getD i d)) = l.findIdx? p := by
+  induction l with
+  | nil => rfl
+  | cons a r ih =>
+    rw [List.length_cons, List.range_succ_eq_map, List.find?_cons, List.findIdx?_cons]
+    by_cases ha : p a = true
+    · simp [ha]
+    · have ha' : p a = false := by simpa using ha
+      simp only [List.getD_cons_zero, ha', Bool.false_eq_true, if_false]
+      rw [List.find?_map]
+      have : ((fun i => p ((a :: r).getD i d)) ∘ Nat.succ) = fun i => p (r.getD i d) := by
+        funext i; simp [Function.comp]
+      rw [this, ih]
+
+theorem in_cell_index_bridge (m : Mesh) (c v : Nat) : C03P.in_cell_index m c v = m.inCellIndex c v := by
+  unfold C03P.in_cell_index Mesh.inCellIndex
+  simp only []
+  rw [find_range_eq_findIdx? (m.cell c) 0 (fun x => x == v), List.findIdx?_eq_guard_findIdx_lt]
+  have : List.findIdx (fun x => x == v) (m.cell c) = List.idxOf v (m.cell c) := rfl
+  rw [this]
+  by_cases h : List.idxOf v (m.cell c) < (m.cell c).length <;> simp [Option.guard, h]
+
+theorem in_cell_face_index_bridge (m : Mesh) (c f : Nat) : C03P.in_cell_face_index m c f = m.inCellFaceIndex c f := rfl
+
+/-- both call forms of `is_edge_on_border` read the flags computed by `_compute_interior_boundary_edges` -/
+theorem is_edge_on_border_bridge (m : Mesh) (h4 : AllTets m) (e u v : Nat) :
+    C03P.is_edge_on_border m e = m.conn.isEdgeOnBorder e
+    ∧ C03P.is_edge_on_border_pair m u v = m.conn.isEdgeOnBorder (m.edgeIdD u v) := by
+  unfold C03P.is_edge_on_border C03P.is_edge_on_border_pair Conn.isEdgeOnBorder flagGet
+  rw [(boundary_edges_bridge m h4).1]
+  exact ⟨rfl, rfl⟩
+
+example : C03P.common_face Mouette.Props.C03.twoTets 0 1 = some 0 ∧ C03P.in_cell_index Mouette.Props.C03.twoTets 1 4 = some 3
+    ∧ C03P.in_cell_index Mouette.Props.C03.twoTets 0 4 = none ∧ C03P.in_cell_face_index Mouette.Props.C03.twoTets 1 0 = some 3
+    ∧ C03P.is_edge_on_border Mouette.Props.C03.twoTets 1 = true := by decide +kernel
+
 end Mouette.Props.C03Small
